@@ -328,6 +328,20 @@ def s_case(draw, tier=None, ops=None, max_ops=6):
              "pb_sign_filter": True, "custom_extra": fp.PB_CUSTOM_EXTRA, "min_types": 0}
     sc = draw(fp.file_scenario("xml", max_lanelets=4, max_obstacles=4, max_pps=2, min_pps=1, decimals=4,
                                extra_profile=extra))
+    # enrich: a closed course - the last lanelet of a chain leads back into its first one (roundabout ring)
+    if len(sc["lanelets"]) >= 2 and draw(st.integers(0, 3)) == 0:
+        by_id = {l["id"]: l for l in sc["lanelets"]}
+        heads = [l for l in sc["lanelets"] if not l["pred"] and l["succ"]]
+        if heads:
+            first = heads[0]
+            last = first
+            seen = {first["id"]}
+            while last["succ"] and last["succ"][0] in by_id and last["succ"][0] not in seen:
+                last = by_id[last["succ"][0]]
+                seen.add(last["id"])
+            if last is not first:
+                last["succ"] = list(last["succ"]) + [first["id"]]
+                first["pred"] = list(first["pred"]) + [last["id"]]
     # enrich: trajectory of custom states with (velocity, velocity_y) and no orientation attribute
     if draw(st.booleans()):
         n = draw(st.integers(1, 4))
